@@ -312,7 +312,8 @@ where
     assert!(got == expect);
     assert!(got <= 100);
     let near = na == nb || na + 1 == nb || nb + 1 == na;
-    kani::cover!(!near || (got > 0 && got < 100));
+    kani::cover!(!near || got > 0);
+    kani::cover!(!near || M < 8 || (got > 0 && got < 100));
     kani::cover!(near || got == 0);
     kani::cover!(na != nb || got == 100);
     kani::cover!(got == 0 && a.len_blockhash1 as usize == M && b.len_blockhash1 as usize == M && a.len_blockhash2 as usize == M && b.len_blockhash2 as usize == M);
@@ -369,6 +370,12 @@ where
     kani::cover!(!cand && a.len_blockhash1 as usize == M && b.len_blockhash1 as usize == M);
 }
 
+#[kani::proof]
+#[kani::unwind(66)]
+fn c10_c_s_m7_3_3() { c10_candidate::<32, 7>(64, 3, 3) }
+#[kani::proof]
+#[kani::unwind(66)]
+fn c10_c_s_m7_30_30() { c10_candidate::<32, 7>(64, 30, 30) }
 // one harness per block-size pair (all 31 equal, 30 + 30 adjacent, a few far ones)
 #[kani::proof]
 #[kani::unwind(66)]
